@@ -206,6 +206,8 @@ class Ruler(Generic[RuleFuncTv]):
         if isinstance(names, str):
             names = [names]
         result: list[str] = []
+        # invalidate first: the loop below may raise after changing some rules
+        self.__cache__ = None
         for name in names:
             idx = self.__find__(name)
             if (idx < 0) and ignoreInvalid:
@@ -229,6 +231,7 @@ class Ruler(Generic[RuleFuncTv]):
         """
         if isinstance(names, str):
             names = [names]
+        self.__cache__ = None
         for rule in self.__rules__:
             rule.enabled = False
         return self.enable(names, ignoreInvalid)
@@ -246,6 +249,8 @@ class Ruler(Generic[RuleFuncTv]):
         if isinstance(names, str):
             names = [names]
         result = []
+        # invalidate first: the loop below may raise after changing some rules
+        self.__cache__ = None
         for name in names:
             idx = self.__find__(name)
             if (idx < 0) and ignoreInvalid:
